@@ -73,6 +73,9 @@ impl<'a> Model<'a> {
         } else {
             2
         };
+        if decimals > 127 {
+            return CalcResult::new_error(Error::VALUE, cell, "Too many decimals".to_string());
+        }
         let formatted = format_abs(value.abs(), decimals, true);
         let result = if value < 0.0 {
             format!("(${})", formatted)
@@ -108,6 +111,9 @@ impl<'a> Model<'a> {
             false
         };
         let use_thousands = !no_commas;
+        if decimals > 127 {
+            return CalcResult::new_error(Error::VALUE, cell, "Too many decimals".to_string());
+        }
         let formatted = format_abs(value.abs(), decimals, use_thousands);
         let result = if value < 0.0 {
             format!("-{}", formatted)
